@@ -96,30 +96,25 @@ func ruleMDIDENT(c *Ctx) []Obligation {
 		if len(fd.Recv.List[0].Names) == 1 {
 			recv = fd.Recv.List[0].Names[0].Name
 		}
-		ss := fd.Body.List
-		norm := func(e ast.Expr) string { return strings.ReplaceAll(exprString(e), " ", "") }
-		ok := len(ss) == 3
-		var why string
-		if ok {
-			// 1. if md == nil { return "null" }
-			is, ok1 := ss[0].(*ast.IfStmt)
-			if !ok1 || norm(is.Cond) != recv+"==nil" || len(is.Body.List) != 1 || !isReturn1(is.Body.List[0]) || exprString(is.Body.List[0].(*ast.ReturnStmt).Results[0]) != `"null"` {
-				ok, why = false, "first statement is not `if md == nil { return \"null\" }`"
-			}
+		// the method as a decision list [(condition, result)…], helpers of the package inlined
+		dl, okDL := c.decisionList(fd, nil, 0)
+		want := [][2]string{{recv + "==nil", `"null"`}, {recv + ".MetadataID!=-1", recv + ".MetadataID.Ident()"}, {"", recv + ".LLString()"}}
+		ok := okDL && len(dl) == len(want)
+		why := ""
+		if !okDL {
+			why = "the body is not a sequence of `if cond { return x }` steps ending in a return"
+		} else if len(dl) != len(want) {
+			why = fmt.Sprintf("%d decision steps, expected three", len(dl))
 		}
 		if ok {
-			is, ok1 := ss[1].(*ast.IfStmt)
-			if !ok1 || norm(is.Cond) != recv+".MetadataID!=-1" || len(is.Body.List) != 1 || !isReturn1(is.Body.List[0]) || norm(is.Body.List[0].(*ast.ReturnStmt).Results[0]) != recv+".MetadataID.Ident()" {
-				ok, why = false, "second statement is not `if md.MetadataID != -1 { return md.MetadataID.Ident() }`"
+			names := []string{"nil → \"null\"", "numbered → the ID's identifier", "otherwise → the inline LLString()"}
+			for i := range want {
+				if dl[i] != want[i] {
+					ok = false
+					why = fmt.Sprintf("step %d is `%s → %s`, expected %s", i+1, dl[i][0], dl[i][1], names[i])
+					break
+				}
 			}
-		}
-		if ok {
-			if !isReturn1(ss[2]) || norm(ss[2].(*ast.ReturnStmt).Results[0]) != recv+".LLString()" {
-				ok, why = false, "last statement is not `return md.LLString()`"
-			}
-		}
-		if len(ss) != 3 && why == "" {
-			why = fmt.Sprintf("%d statements, expected the three-step shape", len(ss))
 		}
 		if !ok {
 			o.Verdict = VIOL
@@ -130,6 +125,86 @@ func ruleMDIDENT(c *Ctx) []Obligation {
 		obs = append(obs, o)
 	}
 	return obs
+}
+
+// decisionList renders a function body of the form
+//
+//	if c1 { return r1 }; …; return rn
+//
+// as [(c1, r1), …, ("", rn)] (spaces removed). A result that is a call of a
+// function of the same package whose body has that form too is replaced by the
+// callee's list with the parameters substituted by the arguments, so that a
+// shared tail extracted into a helper reads like the inline code.
+func (c *Ctx) decisionList(fd *ast.FuncDecl, subst map[string]string, depth int) ([][2]string, bool) {
+	if fd == nil || fd.Body == nil || depth > 3 {
+		return nil, false
+	}
+	p := c.declPkg[fd]
+	render := func(e ast.Expr) string {
+		s := strings.ReplaceAll(exprString(e), " ", "")
+		for from, to := range subst {
+			s = regexp.MustCompile(`\b`+regexp.QuoteMeta(from)+`\b`).ReplaceAllString(s, strings.ReplaceAll(to, "$", "$$"))
+		}
+		return s
+	}
+	var out [][2]string
+	for i, st := range fd.Body.List {
+		var cond string
+		var ret *ast.ReturnStmt
+		switch st := st.(type) {
+		case *ast.IfStmt:
+			if st.Init != nil || st.Else != nil || len(st.Body.List) != 1 {
+				return nil, false
+			}
+			r, ok := st.Body.List[0].(*ast.ReturnStmt)
+			if !ok {
+				return nil, false
+			}
+			cond, ret = render(st.Cond), r
+		case *ast.ReturnStmt:
+			if i != len(fd.Body.List)-1 {
+				return nil, false
+			}
+			ret = st
+		default:
+			return nil, false
+		}
+		if len(ret.Results) != 1 {
+			return nil, false
+		}
+		// inline a helper call
+		if call, ok := unparen(ret.Results[0]).(*ast.CallExpr); ok && p != nil {
+			if callee := calleeOf(p.TypesInfo, call); callee != nil && callee.Pkg() != nil && callee.Pkg().Path() == p.PkgPath && callee.Type().(*types.Signature).Recv() == nil {
+				if hfd := c.funcDecl(callee); hfd != nil {
+					sub := map[string]string{}
+					k := 0
+					for _, f := range hfd.Type.Params.List {
+						for _, nm := range f.Names {
+							if k < len(call.Args) {
+								sub[nm.Name] = render(call.Args[k])
+							}
+							k++
+						}
+					}
+					if inner, ok := c.decisionList(hfd, sub, depth+1); ok {
+						for _, step := range inner {
+							cc := step[0]
+							switch {
+							case cond != "" && cc != "":
+								cc = cond + "&&" + cc
+							case cond != "":
+								cc = cond
+							}
+							out = append(out, [2]string{cc, step[1]})
+						}
+						continue
+					}
+				}
+			}
+		}
+		out = append(out, [2]string{cond, render(ret.Results[0])})
+	}
+	return out, len(out) > 0
 }
 
 func ruleMDINLINE(c *Ctx) []Obligation {
@@ -281,6 +356,7 @@ func ruleMDSCAF(c *Ctx) []Obligation {
 		// every composite literal of the node type must be inside `if new == nil`
 		pm := buildParents(fd.Body)
 		nAlloc := 0
+		var allocVar types.Object
 		ast.Inspect(fd.Body, func(nd ast.Node) bool {
 			cl, ok := nd.(*ast.CompositeLit)
 			if !ok || namedOf(info.TypeOf(cl)) != res {
@@ -294,6 +370,20 @@ func ruleMDSCAF(c *Ctx) []Obligation {
 						guarded = true
 					}
 				}
+				// `switch new := new.(type) { case nil: md = &T{…} … }`
+				if cc, ok := pm[n].(*ast.CaseClause); ok && len(cc.List) == 1 && exprString(cc.List[0]) == "nil" {
+					if blk, ok := pm[cc].(*ast.BlockStmt); ok {
+						if ts, ok := pm[blk].(*ast.TypeSwitchStmt); ok && typeSwitchOperand(ts) == newParam.Name() {
+							guarded = true
+						}
+					}
+				}
+			}
+			// the variable the fresh node is assigned to
+			if as, ok := pm[pm[cl]].(*ast.AssignStmt); ok && len(as.Lhs) == 1 {
+				if id, ok := as.Lhs[0].(*ast.Ident); ok {
+					allocVar = info.ObjectOf(id)
+				}
 			}
 			if !guarded {
 				o.Verdict = VIOL
@@ -304,19 +394,37 @@ func ruleMDSCAF(c *Ctx) []Obligation {
 		})
 		// the value returned must be the asserted/allocated variable
 		if o.Verdict == OK {
+			// the variable that holds `new` asserted to the node type: `md, ok := new.(*T)`, or
+			// `case *T: md = new` in a type switch on new
 			var asserted types.Object
-			if len(fd.Body.List) > 0 {
-				if as, ok := fd.Body.List[0].(*ast.AssignStmt); ok && len(as.Rhs) == 1 {
-					if ta, ok := as.Rhs[0].(*ast.TypeAssertExpr); ok && exprString(ta.X) == newParam.Name() {
-						if id, ok := as.Lhs[0].(*ast.Ident); ok {
-							asserted = info.ObjectOf(id)
-						}
+			ast.Inspect(fd.Body, func(nd ast.Node) bool {
+				as, ok := nd.(*ast.AssignStmt)
+				if !ok || len(as.Rhs) != 1 || len(as.Lhs) == 0 {
+					return true
+				}
+				id, ok := as.Lhs[0].(*ast.Ident)
+				if !ok {
+					return true
+				}
+				switch r := unparen(as.Rhs[0]).(type) {
+				case *ast.TypeAssertExpr:
+					if r.Type != nil && exprString(r.X) == newParam.Name() && namedOf(info.TypeOf(r.Type)) == res {
+						asserted = info.ObjectOf(id)
+					}
+				case *ast.Ident:
+					// inside `case *T:` of `switch new := new.(type)` the clause variable has the node type
+					if r.Name == newParam.Name() && namedOf(info.TypeOf(r)) == res && isPtr(info.TypeOf(r)) {
+						asserted = info.ObjectOf(id)
 					}
 				}
+				return true
+			})
+			if asserted != nil && allocVar != nil && allocVar != asserted {
+				o.Verdict, o.Detail = VIOL, "the fresh node and the node asserted from `new` are held in different variables"
 			}
 			if asserted == nil {
-				o.Verdict, o.Detail = UNDECIDED, "first statement is not `md, ok := new.(*T)`"
-			} else {
+				o.Verdict, o.Detail = UNDECIDED, "no variable holds `new` asserted to the node type (`md, ok := new.(*T)` or `case *T: md = new`)"
+			} else if o.Verdict == OK {
 				ast.Inspect(fd.Body, func(nd ast.Node) bool {
 					if r, ok := nd.(*ast.ReturnStmt); ok && len(r.Results) >= 1 && exprString(r.Results[0]) != "nil" {
 						if id, ok := unparen(r.Results[0]).(*ast.Ident); !ok || info.ObjectOf(id) != asserted {
@@ -762,4 +870,21 @@ func ruleMDASSIGN(c *Ctx) []Obligation {
 	}
 	obs = append(obs, o3)
 	return obs
+}
+
+// typeSwitchOperand returns the operand of a type switch as written (`x` in `switch v := x.(type)`).
+func typeSwitchOperand(ts *ast.TypeSwitchStmt) string {
+	switch a := ts.Assign.(type) {
+	case *ast.AssignStmt:
+		if len(a.Rhs) == 1 {
+			if ta, ok := a.Rhs[0].(*ast.TypeAssertExpr); ok {
+				return exprString(ta.X)
+			}
+		}
+	case *ast.ExprStmt:
+		if ta, ok := a.X.(*ast.TypeAssertExpr); ok {
+			return exprString(ta.X)
+		}
+	}
+	return ""
 }
